@@ -1,12 +1,142 @@
-// Package c01 checks property C01 (not built yet).
+// Package c01 checks property C01: parse then print preserves the meaning of
+// every accepted module.
 package c01
 
 import (
+	"fmt"
+	"strings"
+
+	"verif/harness/llvmoracle"
 	"verif/harness/mbt"
+	"verif/harness/props/corpus"
 	"verif/harness/props/reg"
+	"verif/harness/props/rt"
+	"verif/harness/props/rtinputs"
 )
 
 func init() { reg.Register("C01", Run) }
 
+func originClass(o string) string {
+	if strings.HasPrefix(o, "tlc:") {
+		return o
+	}
+	return "corpus"
+}
+
+// Judge applies the C01 verdict rules to one pipeline result.
+func Judge(rep *mbt.Report, in corpus.Input, r *rt.Result) {
+	cs := map[string]string{"src": in.Text, "name": in.Name}
+	if !r.InputValid {
+		return // not a valid LLVM module: outside the quantifier (counted by the caller)
+	}
+	rep.Programs++
+	switch {
+	case r.ParsePanic != "":
+		rep.Disagreements++
+		rep.Fail(mbt.Failure{Signature: "C01|parse-panic|" + rt.NormalizeMessage(r.ParsePanic), What: fmt.Sprintf("parser crashes on a valid module (%s): %s", in.Name, mbt.Truncate(r.ParsePanic, 300)), Case: cs})
+	case r.Mod == nil:
+		rep.Disagreements++
+		rep.Fail(mbt.Failure{Signature: "C01|valid-module-rejected|" + rt.NormalizeMessage(r.ParseErr), What: fmt.Sprintf("parser rejects a module LLVM accepts (%s): %s", in.Name, mbt.Truncate(r.ParseErr, 300)), Case: cs})
+	case r.PrintPanic != "":
+		rep.Disagreements++
+		rep.Fail(mbt.Failure{Signature: "C01|print-panic|" + rt.NormalizeMessage(r.PrintPanic), What: fmt.Sprintf("printing the parsed module crashes (%s): %s", in.Name, mbt.Truncate(r.PrintPanic, 300)), Case: cs})
+	case !r.OutputValid:
+		rep.Disagreements++
+		rep.Fail(mbt.Failure{Signature: "C01|output-invalid|" + rt.NormalizeMessage(llvmDiag(r.OutputDiag)), What: fmt.Sprintf("printed text is not valid LLVM (%s): %s", in.Name, mbt.Truncate(r.OutputDiag, 400)), Case: cs})
+	case !r.SameMeaning:
+		rep.Disagreements++
+		class := rt.ClassifyDiff(r.DiffLines)
+		rep.Fail(mbt.Failure{Signature: "C01|meaning-changed|" + class, What: fmt.Sprintf("LLVM reads input and output differently (%s); first differing lines (input / output):\n%s", in.Name, showDiff(r.DiffLines)), Case: cs})
+	}
+}
+
+func llvmDiag(d string) string {
+	// "llvm-as: <stdin>:3:1: error: redefinition of type" -> the message
+	if i := strings.Index(d, "error: "); i >= 0 {
+		return d[i+7:]
+	}
+	return d
+}
+
+func showDiff(d [][2]string) string {
+	var sb strings.Builder
+	for i, x := range d {
+		if i >= 3 {
+			break
+		}
+		fmt.Fprintf(&sb, "  in : %s\n  out: %s\n", mbt.Truncate(x[0], 300), mbt.Truncate(x[1], 300))
+	}
+	return sb.String()
+}
+
+func dupAttrGroup(text string) bool {
+	seen := map[string]bool{}
+	for _, l := range strings.Split(text, "\n") {
+		if strings.HasPrefix(l, "attributes #") {
+			f := strings.Fields(l)
+			if seen[f[1]] {
+				return true
+			}
+			seen[f[1]] = true
+		}
+	}
+	return false
+}
+
 // Run is the C01 check.
-func Run(tier, replay string) { mbt.Infra("check C01 is not built yet") }
+func Run(tier, replay string) {
+	rep := mbt.NewReport("C01", tier, "translation_validation")
+	llvmoracle.Require()
+	rep.Rule = "a program is a module that llvm-as accepts; it is parsed and printed by the code under test, and llvm-as|llvm-dis of input and output are compared modulo metadata / attribute-group numbering. Sources: modules generated from the TLA+ specifications (Translate.tla reference patterns, Modules.tla feature matrix, DI-node field sweep) and corpora (repository test inputs, llvm-stress, opt variants, clang output with debug info, exceptions, attributes)"
+	var ins []corpus.Input
+	if replay != "" {
+		var rf struct {
+			Failures []struct {
+				Case map[string]string `json:"case"`
+			} `json:"failures"`
+		}
+		if err := mbt.ReadJSON(replay, &rf); err != nil {
+			mbt.Infra("replay: %v", err)
+		}
+		for _, f := range rf.Failures {
+			ins = append(ins, corpus.Input{Name: f.Case["name"], Origin: "replay", Text: f.Case["src"]})
+		}
+	} else {
+		ins = append(rtinputs.Generated(rep, tier), rtinputs.Corpora(tier)...)
+	}
+	results := make([]*rt.Result, len(ins))
+	llvmoracle.Parallel(len(ins), func(i int) {
+		if strings.Contains(ins[i].Text, "s0x") {
+			// LLVM 14 reads s0x literals by truncating to the active bits: it cannot arbitrate them (C09 judges them)
+			results[i] = &rt.Result{Text: ins[i].Text, InputValid: false, InputDiag: "s0x literal: not arbitrated by LLVM"}
+			return
+		}
+		if dupAttrGroup(ins[i].Text) {
+			// LLVM's reading of a repeated `attributes #N` depends on where the uses stand relative to
+			// the definitions; its own printer never emits that. Not arbitrated (C20/C12 cover the merge).
+			results[i] = &rt.Result{Text: ins[i].Text, InputValid: false, InputDiag: "attribute group defined twice: not arbitrated by LLVM"}
+			return
+		}
+		results[i] = rt.Run(ins[i].Text, true)
+	})
+	invalid := 0
+	byOrigin := map[string]int{}
+	for i, in := range ins {
+		r := results[i]
+		if !r.InputValid {
+			invalid++
+			continue
+		}
+		byOrigin[in.Origin]++
+		rep.Count(in.Text, true)
+		if len(rep.Samples) < 4 && (strings.HasPrefix(in.Origin, "tlc:") || len(rep.Samples) < 2) {
+			rep.Sample(map[string]interface{}{"name": in.Name, "origin": in.Origin, "text": mbt.Truncate(in.Text, 600)})
+		}
+		Judge(rep, in, r)
+	}
+	rep.Extra["inputs_by_origin"] = byOrigin
+	rep.Extra["inputs_not_valid_for_llvm"] = invalid
+	rep.Assumptions = []string{"LLVM 14's own reading (llvm-as | llvm-dis) defines 'denotes the same module'; differences LLVM's printer normalises away are invisible",
+		"metadata and attribute-group numbering and the order of named metadata are normalised before comparison (rt.NormalizeMetadata)"}
+	rep.Finish()
+}
